@@ -45,7 +45,8 @@ impl BytesSerializable for DeleteTopic {
     }
 
     fn from_bytes(bytes: Bytes) -> std::result::Result<DeleteTopic, IggyError> {
-        if bytes.len() < 10 {
+        // Two identifiers, each at least 3 bytes (kind, length, 1-byte name).
+        if bytes.len() < 6 {
             return Err(IggyError::InvalidCommand);
         }
 
